@@ -14,10 +14,71 @@ import ast
 
 import z3
 
-from .engine import (SymSeq, PathDone, Unsupported, _Break, _Continue, NotImplementedVal, GenVal, Env, Obj, is_z3, z3_of)
+from .engine import (SymSeq, PathDone, Unsupported, _Break, _Continue, NotImplementedVal, GenVal, Env, Obj, Havoc, SetVal, is_z3, z3_of)
 from .source import BuiltinClass
 
 FilterSeqCls = BuiltinClass('FilterSeq')
+
+
+MUTATORS = {'append', 'extend', 'insert', 'remove', 'pop', 'clear', 'sort', 'reverse', 'add', 'discard', 'update', 'setdefault', 'popitem',
+            'difference_update', 'intersection_update', 'symmetric_difference_update', 'appendleft', 'popleft'}
+
+
+def carried(stmts, extra_targets=()):
+    """(names assigned, names whose container is mutated) anywhere in the statements -- nested function bodies and comprehension
+    targets (own scopes) excluded"""
+    assigned, mutated = set(), set()
+
+    def root(e):
+        while isinstance(e, (ast.Subscript, ast.Attribute)):
+            e = e.value
+        return e.id if isinstance(e, ast.Name) else None
+
+    def visit(n):
+        if isinstance(n, (ast.FunctionDef, ast.AsyncFunctionDef, ast.Lambda, ast.ClassDef)):
+            if not isinstance(n, ast.Lambda):
+                assigned.add(n.name)
+            return
+        if isinstance(n, (ast.ListComp, ast.SetComp, ast.DictComp, ast.GeneratorExp)):
+            for g in n.generators:
+                visit(g.iter)
+            return
+        if isinstance(n, ast.Name) and isinstance(n.ctx, (ast.Store, ast.Del)):
+            assigned.add(n.id)
+        if isinstance(n, ast.Subscript) and isinstance(n.ctx, (ast.Store, ast.Del)):
+            r = root(n)
+            if r:
+                mutated.add(r)
+        if isinstance(n, ast.AugAssign) and isinstance(n.target, ast.Subscript):
+            r = root(n.target)
+            if r:
+                mutated.add(r)
+        if isinstance(n, ast.Call) and isinstance(n.func, ast.Attribute) and n.func.attr in MUTATORS and isinstance(n.func.value, ast.Name):
+            mutated.add(n.func.value.id)
+        if isinstance(n, ast.ExceptHandler) and n.name:
+            assigned.add(n.name)
+        for c in ast.iter_child_nodes(n):
+            visit(c)
+    for st in stmts:
+        visit(st)
+    for t in extra_targets:
+        visit(t)
+    return assigned, mutated
+
+
+def _described_state(I, env, loopname, assigned, mutated, fn):
+    """Before the contract's state function runs, every loop-carried name (assigned in the body, or a concrete container the body
+    mutates) is bound to Havoc; the state function re-binds the ones the invariant describes.  What is still Havoc afterwards
+    cannot be read (Unsupported -> undecided), so a stale pre-loop value is never used at an arbitrary iteration."""
+    missing = object()
+    for nm in assigned | mutated:
+        cur = env.local.get(nm, missing)
+        if nm in assigned or isinstance(cur, (list, dict, set, SetVal)) or type(cur).__name__ == 'DefaultDict':
+            env.local[nm] = Havoc(nm, loopname)
+    fn()
+    for nm in assigned:
+        if nm not in env.local:               # popped by the contract ("not meaningful here")
+            env.local[nm] = Havoc(nm, loopname)
 
 
 def for_rule(name, state_at, check_inv):
@@ -26,13 +87,14 @@ def for_rule(name, state_at, check_inv):
             return NotImplementedVal
         ctx = I.ctx
         n = it.length
+        assigned, mutated = carried(node.body, [node.target])
         for label, f in check_inv(I, z3.IntVal(0), env, it):
             ctx.oblige('loop[%s]-invariant-holds-on-entry: %s' % (name, label), f)
         which = ctx.choose([True, True], 'loop')
         if which == 0:
             j = ctx.fresh('j_' + name, 'int')
             ctx.assume(z3.And(0 <= j, j < n))
-            state_at(I, j, env, it)
+            _described_state(I, env, name, assigned, mutated, lambda: state_at(I, j, env, it))
             I.assign(node.target, it.at(j), env)
             try:
                 I.exec_block(node.body, env)
@@ -46,7 +108,7 @@ def for_rule(name, state_at, check_inv):
             for label, f in check_inv(I, j + 1, env, it):
                 ctx.oblige('loop[%s]-invariant-preserved: %s' % (name, label), f)
             raise PathDone()
-        state_at(I, n, env, it)
+        _described_state(I, env, name, assigned, mutated, lambda: state_at(I, n, env, it))
         I.exec_block(node.orelse, env)
         return None
     return handler
@@ -158,11 +220,12 @@ def while_rule(name, state_at, check_inv, variant=None):
     variant(I, env) -> Int term that must be >= 0 whenever the loop condition holds and strictly decrease per iteration."""
     def handler(I, node, env):
         ctx = I.ctx
+        assigned, mutated = carried(node.body)
         for label, f in check_inv(I, env):
             ctx.oblige('while[%s]-invariant-holds-on-entry: %s' % (name, label), f)
         which = ctx.choose([True, True], 'while')
         if which == 0:
-            state_at(I, env, 'it')
+            _described_state(I, env, name, assigned, mutated, lambda: state_at(I, env, 'it'))
             if not I.truth(I.eval(node.test, env)):
                 raise_abort()
             v0 = variant(I, env) if variant is not None else None
@@ -179,7 +242,7 @@ def while_rule(name, state_at, check_inv, variant=None):
             if v0 is not None:
                 ctx.oblige('while[%s]-variant-decreases' % name, variant(I, env) < v0)
             raise PathDone()
-        state_at(I, env, 'exit')
+        _described_state(I, env, name, assigned, mutated, lambda: state_at(I, env, 'exit'))
         if I.truth(I.eval(node.test, env)):
             raise_abort()
         I.exec_block(node.orelse, env)
